@@ -97,10 +97,11 @@ type span struct {
 // Plan builds the C17 plan.
 func Plan(tier string) *harness.Plan {
 	k := 1
-	t := bx.Tier{PN: 4, SK: 1, LASCII: 3, LUTF8: 2, LRaw: 0, EmbedW: -1, TokL: 2, TokN: 5, SeedEmbW: -1, Budget: 150 * time.Second}
+	t := bx.Tier{PN: 4, SK: 1, LASCII: 3, LUTF8: 2, LRaw: 0, EmbedW: -1, TokL: 2, TokN: 5, SeedEmbW: -1, SeedEmbFirst: 1000, SeedTokL: 4, SeedTokN: 6, Budget: 150 * time.Second}
 	if tier == "thorough" {
+		// every configuration with at most 2 deviations; plus the 5-node patterns and two-edit seed neighbourhoods
 		k = 2
-		t = bx.Tier{PN: 5, SK: 2, LASCII: 3, LUTF8: 2, LRaw: 0, EmbedW: -1, TokL: 3, TokN: 5, SeedEmbW: -1, Budget: 40 * time.Minute}
+		t.PN, t.HugePN, t.LHuge, t.SK, t.Budget = 5, 4, 3, 2, 25*time.Minute
 	}
 	sp := bx.NewSpace(t)
 	cfgs := configs(k)
